@@ -1,4 +1,6 @@
 import ElaVerif.Lemmas.RunPrograms
+import ElaVerif.Lemmas.TxSig
+import ElaVerif.Gen.C05
 /-!
 # C05 — spending requires valid signatures from every spent address
 
@@ -173,5 +175,75 @@ theorem C05_tamper {D : Type} (O : Oracles D) (d d' : D) (ph : PH) (p : Program)
     · rw [hb _ _ s1] at s2; cases s2
     · exact noMulti d' hm'
   · exact noMulti d hm
+
+
+/-! ## the layer above RunPrograms: checkTransactionSignature -/
+open ElaVerif.TxSig in
+/-- **Transaction level (partial).** If `checkTransactionSignature` accepts a transaction whose
+    (type, payload version) is *not* in the exemption, whose programs are of known kinds and which
+    spends no cross-chain prefixed address, then every address it spends from — the program hash of
+    every referenced output and every well-formed Script attribute — has a program of the transaction
+    whose code hashes to it and whose signatures verify over the unsigned bytes `d`.
+    (De-duplication keeps every address; sorting both lists is a permutation.) -/
+theorem C05_tx_sound_partial {D : Type} (v : Variant) (O : Oracles D) (d : D) (t : Tx)
+    (hne : exempt v t.ttype t.pver = false)
+    (hk : ∀ p ∈ t.programs, KnownKind p)
+    (hx : ∀ h ∈ t.refs, h.pfx ≠ PrefixCrossChain)
+    (hxs : ∀ ss, scriptHashes? t.scripts = some ss → ∀ h ∈ ss, h.pfx ≠ PrefixCrossChain)
+    (h : checkTxSig v Fix.all O d t = ok) :
+    ∃ ss, scriptHashes? t.scripts = some ss ∧ ∀ ph ∈ t.refs ++ ss, ∃ p ∈ t.programs, Authorised O d ph p := by
+  unfold checkTxSig at h
+  rw [hne] at h
+  simp only [Bool.false_eq_true, if_false] at h
+  unfold getTxProgramHashes at h
+  cases hs : scriptHashes? t.scripts with
+  | none => rw [hs] at h; cases h
+  | some ss =>
+    rw [hs] at h
+    simp only at h
+    refine ⟨ss, rfl, ?_⟩
+    intro ph hph
+    have hall : ∀ q ∈ dedupe (t.refs ++ ss), q.pfx ≠ PrefixCrossChain := by
+      intro q hq
+      have := dedupe_sub _ q hq
+      simp only [List.mem_append] at this
+      rcases this with hq | hq
+      · exact hx q hq
+      · exact hxs ss hs q hq
+    exact C05_run_sound_sorted_partial O d (dedupe (t.refs ++ ss)) _ t.programs _
+      (sortBy_perm _ _) (sortBy_perm _ _) hk hall h ph (mem_dedupe _ ph hph)
+
+open ElaVerif.TxSig in
+/-- The exemption is unconditional: an exempt (type, version) is accepted whatever programs,
+    references and attributes the transaction carries. This is why the table below is reviewed. -/
+theorem C05_tx_exempt_accepts {D : Type} (v : Variant) (O : Oracles D) (d : D) (t : Tx)
+    (he : exempt v t.ttype t.pver = true) : checkTxSig v Fix.all O d t = ok := by
+  unfold checkTxSig; rw [he]; rfl
+
+open ElaVerif.TxSig in
+/-- the reviewed exemption table of core/transaction.checkTransactionSignature, by type:
+    NextTurnDPOSInfo 0x14, CRCProposalWithdraw 0x29 (payload version 0 only), CRCProposalRealWithdraw 0x2a,
+    CRAssetsRectify 0x2b, DposV2ClaimRewardRealWithdraw 0x61, VotesRealWithdraw 0x65 -/
+def grid : List (Nat × Nat) :=
+  Gen.C05.txTypes.flatMap (fun t => (List.range (Gen.C05.maxVersion + 1)).map (fun v => (t, v)))
+
+open ElaVerif.TxSig in
+/-- **T-gen.** On the working tree, the (type, payload version) pairs that the real functions accept
+    with a foreign, unsigned program — probed for every known transaction type × versions 0..7 —
+    are exactly the pairs the model's `exempt` names, for both variants; every probe answered; and
+    the source text of the two exemption conditions is the reviewed one. -/
+theorem C05_gen_exempt :
+    Gen.C05.exemptTx = grid.filter (fun tv => exempt .tx tv.1 tv.2) ∧
+    Gen.C05.exemptBc = grid.filter (fun tv => exempt .bc tv.1 tv.2) ∧
+    Gen.C05.probeOdd = [] ∧
+    Gen.C05.exemptCondTx = "(tx.IsCRCProposalWithdrawTx() && tx.PayloadVersion() == payload.CRCProposalWithdrawDefault) || tx.IsCRAssetsRectifyTx() || tx.IsCRCProposalRealWithdrawTx() || tx.IsNextTurnDPOSInfoTx() || tx.IsDposV2ClaimRewardRealWithdraw() || tx.IsVotesRealWithdrawTX()" ∧
+    Gen.C05.exemptCondBc = "(tx.IsCRCProposalWithdrawTx() && tx.PayloadVersion() == payload.CRCProposalWithdrawDefault) || tx.IsCRAssetsRectifyTx() || tx.IsCRCProposalRealWithdrawTx() || tx.IsNextTurnDPOSInfoTx()" := by
+  refine ⟨by decide, by decide, rfl, rfl, rfl⟩
+
+/-- non-vacuity: a TransferAsset spending one standard address twice (two inputs) with its one signed program -/
+example : ElaVerif.TxSig.checkTxSig .tx Fix.all toy ()
+    ⟨0x02, 0, [⟨0x21, [33, 5]⟩, ⟨0x21, [33, 5]⟩], [], [⟨stdCode 5, 64 :: 5 :: List.replicate 63 0⟩]⟩ = ok := by decide
+/-- CRCProposalWithdraw payload version 1 is not exempt -/
+example : ElaVerif.TxSig.exempt .tx 0x29 1 = false ∧ ElaVerif.TxSig.exempt .tx 0x29 0 = true := by decide
 
 end ElaVerif.C05
